@@ -883,8 +883,26 @@ class TorConfig:
             # v will be txtorcon.DEFAULT_VALUE already from
             # parse_keywords if it was unspecified
             real_name = self._find_real_name(k)
-            if real_name in self.parsers:
-                v = self.parsers[real_name].parse(v)
+            if real_name.lower() in [x.lower() for x in self.list_parsers]:
+                # list-valued options stay tracked lists, whether Tor
+                # reports zero, one or many values
+                if v == DEFAULT_VALUE:
+                    values = self._defaults.get(real_name, [])
+                    if not isinstance(values, list):
+                        values = [values]
+                elif isinstance(v, list):
+                    values = v
+                else:
+                    values = [v]
+                if real_name in self.parsers and not isinstance(self.parsers[real_name], String):
+                    values = self.parsers[real_name].parse(values if len(values) != 1 else values[0])
+                v = _ListWrapper(
+                    values, functools.partial(self.mark_unsaved, real_name))
+            elif real_name in self.parsers:
+                if v == DEFAULT_VALUE:
+                    v = self._defaults.get(real_name, DEFAULT_VALUE)
+                if v != DEFAULT_VALUE:
+                    v = self.parsers[real_name].parse(v)
             self.config[real_name] = v
 
     def bootstrap(self, arg=None):
